@@ -39,6 +39,8 @@ func main() {
 	switch cmd {
 	case "chain":
 		err = chainMain(fs, os.Args[2:])
+	case "chainworker":
+		err = chainWorker(fs, os.Args[2:], realStdout)
 	case "cross":
 		err = crossMain(fs, os.Args[2:])
 	case "probe":
